@@ -332,6 +332,43 @@ theorem applyG_BidInv (ret : Bool) (s s' : Sys) (a : Act) (hi : BidInv s) (ha : 
     split at ha
     · simp at ha; subst ha; exact hi
     · simp at ha
+  | cancelRPC prov =>
+    simp only [applyG] at ha
+    split at ha
+    · simp at ha
+    · split at ha
+      · simp at ha
+      · have hsafe := finStep_bidsafe s.bidStored ret prov (getParty s prov) sCanceled false
+        split at ha
+        · simp at ha
+        split at ha
+        · split at ha
+          · simp at ha; subst ha; exact hi
+          · rename_i x' es heq
+            simp at ha; subst ha
+            rw [heq] at hsafe
+            have hb := setParty_bids s prov x'
+            exact BidInv_congr _ _ (setParty_bids _ _ _)
+              (applyEffs_BidInv prov _ es (BidInv_congr _ _ hb hi) (BidSafe_congr _ _ _ hb.2 hsafe))
+        · simp at ha; subst ha; exact BidInv_congr _ _ (setParty_bids _ _ _) hi
+  | completeRPC prov =>
+    simp only [applyG] at ha
+    split at ha
+    · simp at ha
+    · split at ha
+      · simp at ha
+      · have hsafe := finStep_bidsafe s.bidStored ret prov (getParty s prov) sCompleted false
+        split at ha
+        · simp at ha
+        split at ha
+        · split at ha
+          · simp at ha; subst ha; exact hi
+          · rename_i x' es heq
+            simp at ha; subst ha
+            rw [heq] at hsafe
+            have hb := setParty_bids s prov x'
+            exact applyEffs_BidInv prov _ es (BidInv_congr _ _ hb hi) (BidSafe_congr _ _ _ hb.2 hsafe)
+        · simp at ha; subst ha; exact BidInv_congr _ _ (setParty_bids _ _ _) hi
 
 theorem runG_BidInv (ret : Bool) (as : List Act) : ∀ s s', BidInv s → runG ret s as = some s' → BidInv s' := by
   induction as with
@@ -468,5 +505,17 @@ theorem recpBody_writes (s : Sys) (l pkt : Ticket) (i w : Nat)
         have := driverExpect_ok _ _ _ hde
         subst this; simp at h; exact h
   | n + 5 => simp [recpBody, writes] at h
+
+/-- handling a canceled ticket (any state but the transient "created"): both step functions return "canceled" and
+spawn the finalization, for ANY local ticket -/
+theorem C16_cancel_spawn (s : Sys) (cur : Nat) (l pkt : Ticket)
+    (hc : pkt.state = sCanceled) (hcur : cur ≠ sCreated) :
+    (stepProvider (envP s) cur (some pkt) (some l)).effs = [.spawnFin] ∧
+    (stepProvider (envP s) cur (some pkt) (some l)).res = .ok sCanceled (some pkt) (some l) ∧
+    (stepRecipient (envR s) cur (some l) (some pkt)).effs = [.spawnFin] ∧
+    (stepRecipient (envR s) cur (some l) (some pkt)).res = .ok sCanceled (some l) (some pkt) := by
+  have hcur' : ¬ cur = 0 := hcur
+  simp only [stepProvider, stepRecipient, prov_select, recp_select, provSel, recpSel, hc]
+  simp [hcur', provBody, recpBody, sCanceled]
 
 end Pool.C16
